@@ -56,6 +56,15 @@ def _gene(name, genome, rng):
         from ..gen import dbgen
 
         return dbgen.random_gene(rng, genome=genome, want_cn=True)
+    if name.startswith("gen_"):
+        # databases whose only structural alleles are right fusions / left fusions / the whole-gene deletion
+        from ..gen import dbgen
+
+        return dbgen.random_gene(rng, genome=genome, want_cn=True, structural=name[4:] + "_only")
+    if name == "gennone":
+        from ..gen import dbgen
+
+        return dbgen.random_gene(rng, genome=genome, want_cn=False)
     return tables.gene(name, genome)
 
 
@@ -328,8 +337,24 @@ def _run_plumbing(case, res):
     from aldy.sam import Sample
 
     rng = util.rng_for("c03plumb", case["seed"], case["k"])
-    gname = rng.choice(["toy", "cyp2d6", "cyp2a6", "gstm1", "gen"])
+    gname = ["toy", "cyp2d6", "cyp2a6", "gstm1", "gen", "gen_right", "gen_left", "gen_deletion", "gennone",
+             "gen_right"][case["k"] % 10]
     g = _gene(gname, rng.choice(["hg19", "hg38"]), rng)
+    if gname == "gennone":
+        # no structural allele at all: copy-number calling is unavailable, two default copies, no model
+        cov0 = Coverage(g, Profile("test"), None, {}, None, {})
+        cov0._region_coverage = {(gi, r): 3.0 for gi, gr in enumerate(g.regions) for r in gr}
+        called = []
+        orig0 = aldy.cn.solve_cn_model
+        aldy.cn.solve_cn_model = lambda *a, **k: called.append(1) or orig0(*a, **k)
+        try:
+            out0 = aldy.cn.estimate_cn(g, Profile("test"), cov0, "any")
+        finally:
+            aldy.cn.solve_cn_model = orig0
+        res.check("defaults_when_unavailable", not called and [dict(o.solution) for o in out0] == [{"1": 2}],
+                  "gene without structural alleles is not given exactly two default copies",
+                  got=[dict(o.solution) for o in out0], model_calls=len(called))
+        return
     prof = Profile("test", gap=rng.choice([0, 0.1]))
     cov = Coverage(g, prof, None, {}, None, {})
     low = rng.random() < 0.3
@@ -371,7 +396,9 @@ def _run_plumbing(case, res):
         return
     res.check("low_depth_guard", err is None, "adequate depth rejected", total=total, err=repr(err))
     if not captured:
-        res.check("plumbing_args", False, "solve_cn_model not reached")
+        res.check("plumbing_args", False, "solve_cn_model not reached although the database defines structural "
+                  "alleles and the depth is adequate", db=gname,
+                  configurations={n: str(c.kind) for n, c in g.cn_configs.items()})
         return
     cfgs, max_cn, region_cov, fsup = captured[0]
     exp_max = 1 + max(math.ceil(v) for v in rc.values())
@@ -387,7 +414,7 @@ def _run_plumbing(case, res):
               "candidate configurations are not a subset of the catalogue's", got=list(cfgs))
     # the catalogue's configuration table is not modified by the stage
     res.check("catalogue_untouched", all(g.cn_configs[k].cn == tables.gene(gname, g.genome).cn_configs[k].cn
-                                         for k in g.cn_configs) if gname != "gen" else True,
+                                         for k in g.cn_configs) if not gname.startswith("gen") else True,
               "estimate_cn modified the catalogue's configurations")
 
 
